@@ -43,7 +43,7 @@ def run(ctx):
     cex = None
     for q in A.summarize(eng, f, [lo, hi], self_obj=obj, defining_cls=c, path=p):
         npaths += 1
-        if q.outcome[0] != "return" or q.draws != 1:
+        if q.outcome[0] != "return" or q.draws < 1:
             ok = False
             continue
         v, u = A.to_z3(q.outcome[1]), q.log[0]
@@ -53,7 +53,7 @@ def run(ctx):
             ok = False
             if m is not None:
                 cex = (m.eval(lo, model_completion=True).as_long(), m.eval(hi, model_completion=True).as_long())
-    name = "next_int(lo,hi): exactly one uniform, an int with lo <= value <= hi for ALL ints lo <= hi and all reals 0 <= u < 1"
+    name = "next_int(lo,hi): an int with lo <= value <= hi for ALL ints lo <= hi and all reals 0 <= u < 1"
     if ok:
         ob(name, "pass", f"{nq} queries over {npaths} paths", nq, {"lemma": name})
     else:
@@ -66,14 +66,14 @@ def run(ctx):
         c, f = eng.find_method(MersenneTwister, meth)
         ok, nq = True, 0
         for q in A.summarize(eng, f, [], self_obj=obj, defining_cls=c, path=p):
-            if q.outcome[0] != "return" or q.draws != 1:
+            if q.outcome[0] != "return" or q.draws < 1:
                 ok = False
                 continue
             v = q.outcome[1]
             r, _ = A.prove(eng, q, claim(A.to_z3(v), q.log[0]))
             nq += 1
             ok = ok and r == "unsat"
-        nm = f"{meth}: exactly one uniform, " + ("value in [0,1)" if meth == "next_float" else "a bool")
+        nm = f"{meth}: " + ("value in [0,1)" if meth == "next_float" else "a bool")
         if ok:
             ob(nm, "pass", f"{nq} queries", nq)
         else:
@@ -84,7 +84,7 @@ def run(ctx):
     # ------------------------------------------------------------------ Engine A: protocol
     q = ctx.tier == "quick"
     to = 600 if q else 3000
-    scripts = ["FBfbFB", "FfRF", "SFRF", "FVFTF", "FSFRFF", "fVFbTfR", "FIB", "FIBfRFIB", "IVITI", "SsFf", "FfSfF", "FVFTRF", "SVFTRFF", "VFTSRF", "FVSTRF", "FVRTRF", "fvFstrf"]
+    scripts = ["FBfbFB", "FfRF", "SFRF", "FVFTF", "FSFRFF", "fVFbTfR", "FIB", "FIBfRFIB", "IVITI", "SsFf", "FfSfF", "FVFTRF", "SVFTRFF", "VFTSRF", "FVSTRF", "FVRTRF", "fvFstrf", "BVBTB", "BBVBTBB", "BSBRB"]
     if not q:
         scripts += ["IiVIiTI", "FBIVSFTFBI", "fFVvRrTtFf", "SFBIRFBI", "FFFRFFVFTF", "sSfFrRfF"]
     conds = []
